@@ -34,7 +34,62 @@ func Pattern(re *syntax.Regexp) Set {
 	if lastOptional(re) {
 		s["optional_last"] = true
 	}
+	markAssertPositions(re, s)
 	return s
+}
+
+// markAssertPositions sets assert_in_repeat (an assertion under a quantifier) and
+// assert_mid (an assertion that is not in the leading run of begin-anchors/word assertions
+// or the trailing run of end-anchors/word assertions of the top-level concatenation).
+func markAssertPositions(re *syntax.Regexp, s Set) {
+	var inRepeat func(r *syntax.Regexp, q bool)
+	inRepeat = func(r *syntax.Regexp, q bool) {
+		if isAssert(r) && r.Op != syntax.OpEmptyMatch && q {
+			s["assert_in_repeat"] = true
+		}
+		switch r.Op {
+		case syntax.OpStar, syntax.OpPlus, syntax.OpQuest, syntax.OpRepeat:
+			q = true
+		}
+		for _, sub := range r.Sub {
+			inRepeat(sub, q)
+		}
+	}
+	inRepeat(re, false)
+	hasAssert := func(r *syntax.Regexp) bool {
+		found := false
+		var w func(x *syntax.Regexp)
+		w = func(x *syntax.Regexp) {
+			if isAssert(x) && x.Op != syntax.OpEmptyMatch {
+				found = true
+			}
+			for _, sub := range x.Sub {
+				w(sub)
+			}
+		}
+		w(r)
+		return found
+	}
+	top := re
+	for top.Op == syntax.OpCapture && len(top.Sub) == 1 {
+		top = top.Sub[0]
+	}
+	subs := []*syntax.Regexp{top}
+	if top.Op == syntax.OpConcat {
+		subs = top.Sub
+	}
+	i, j := 0, len(subs)-1
+	for i <= j && (subs[i].Op == syntax.OpBeginText || subs[i].Op == syntax.OpBeginLine || subs[i].Op == syntax.OpWordBoundary || subs[i].Op == syntax.OpNoWordBoundary) {
+		i++
+	}
+	for j >= i && (subs[j].Op == syntax.OpEndText || subs[j].Op == syntax.OpEndLine || subs[j].Op == syntax.OpWordBoundary || subs[j].Op == syntax.OpNoWordBoundary) {
+		j--
+	}
+	for k := i; k <= j; k++ {
+		if hasAssert(subs[k]) {
+			s["assert_mid"] = true
+		}
+	}
 }
 
 func walk(re *syntax.Regexp, s Set, quantDepth int, inCapture bool) {
